@@ -51,6 +51,10 @@ def project_result(tree, fl):
 def _pairs(args):
     pairs, flname, base = args
     fl = flavours.make(flname.split("+")[0], flname.endswith("+typed"))
+    fl1 = fl
+    if flname == "nstr":     # the second tree holds equal, but distinct string objects
+        fl1 = flavours.make("nstr")
+        fl1.fresh = True
     out = []
     k = 0
     for s0, s1 in pairs:
@@ -66,7 +70,7 @@ def _pairs(args):
             full = None
             for reduce in (False, True):
                 b0 = core.build(s0, fl, name="t0")
-                b1 = core.build(s1, fl, name="t1")
+                b1 = core.build(s1, fl1, name="t1")
                 rec = {"id": base + k, "fl": flname, "t0": s0, "t1": s1, "ordered": ordered, "reduce": reduce,
                        "r": {"n": 0, "par": [], "kids": [], "top": [], "dat": [], "did": [], "knd": [], "meta": [], "typed": False,
                              "mark": [], "o0": [], "o1": []},
@@ -209,6 +213,8 @@ def run(prop: str, tier: str) -> int:
     sts = labelled(rep, max_nodes=3, d=2 if quick else 3, label="labelled<=3")
     pairs = [(a, b) for a in sts for b in sts]
     run_pairs(rep, pairs, "str", "all pairs")
+    # the same labels as distinct string objects in the second tree (as after load(), or computed labels)
+    run_pairs(rep, pairs[::5] if quick else pairs, "nstr", "pairs with equal, but distinct label objects")
     wm = wrap_moves(sts if quick else labelled(rep, max_nodes=3, d=2, label="labelled<=3x2"))
     run_pairs(rep, wm + [(b, a) for a, b in wm], "str", "moves into a new two-level branch (and back)")
     # TypedTree inputs (open finding KF-diff-typed: diff() builds a plain Tree and cannot copy typed nodes into it)
